@@ -19,6 +19,10 @@ CLAIMED = {
    text="Sticky-failure ghost r.short: ReadN sets it exactly when it fails and fails whenever fewer than length bytes remain; every decoder under contract is verified to return an error whenever r.short became true during the call (no swallowed error) and, for fixed-width decoders, whenever fewer bytes than needed remain.",
    note="From obligations to the statement uses the paper lemma 'a decoder run is a function of the bytes it consumed' (DESIGN.md §7 C08). Decoders covered: message, basic, dynamic values, TypeReaders; generated meta-object/service-info decoders, capability map and the reflection decoder are not yet under contract.",
    technique="contract-based deductive verification: ghost-state postconditions on every decoder, SMT", ref="7 C08"),
+ "C16": dict(level="proof",
+   text="serviceImpl's object table under the monitor rule: Remove is verified to delete exactly the named object from both the object map and the mailbox map inside one critical section, call its OnTerminate exactly once, leave every other entry unchanged, and to change nothing for an unknown id; Receive answers a message for an id without mailbox with exactly one error reply; Add reserves an id that is free at reservation time and leaves nothing behind when activation fails; Terminate keeps the lock discipline; every access to the two maps carries a guard obligation (lock held in the right mode) and every Lock/Unlock a lock-state obligation.",
+   note="Effects are stated at the linearization point (at_lock/at_unlock snapshots of the single critical section); all interleavings follow by the monitor rule (assumption). Actor/Channel methods are abstract collaborators with ghost call counters. objectImpl.Terminate -> Service.Remove plumbing, signalHandler.OnTerminate (subscribers told) and clientService (service_reference.go) are not yet under contract.",
+   technique="contract-based deductive verification with lock-protected (monitor) invariants, SMT", ref="7 C16"),
 }
 
 NOT_APPLICABLE = {
